@@ -226,6 +226,7 @@ theorem noAgg_eval (h : AExpr) (hn : h.noAgg = true) (out : Row) (g g' : List Ro
     simp only [AExpr.noAgg] at hn
     simp only [AExpr.eval, iha hn]
   | outRef n => rfl
+  | symSum pk v => simp [AExpr.noAgg] at hn
 
 theorem fusable_parts {p : Plan} {c : Cte} (h : p.fusable c = true) :
     p.ctes = [c] ∧ p.base = c.name ∧ p.joins = [] ∧ p.where_ = [] ∧ p.having.all AExpr.noAgg = true ∧
